@@ -102,6 +102,14 @@ func checkC07(r *core.Run) {
 		}
 		var outs []*ssa.Function
 		for _, e := range n.Out {
+			// a call of a function value (`nameOf(i)`): CHA answers with every function of that
+			// signature in the program; the VTA graph, which follows the values that flow to the
+			// call, is used for those sites. Interface calls and static calls keep the CHA answer.
+			if e.Site != nil && !e.Site.Common().IsInvoke() && e.Site.Common().StaticCallee() == nil {
+				if !vtaEdge(prog, fn, e.Site, e.Callee.Func) {
+					continue
+				}
+			}
 			outs = append(outs, e.Callee.Func)
 		}
 		sort.Slice(outs, func(i, j int) bool { return outs[i].String() < outs[j].String() })
@@ -484,6 +492,20 @@ func c07InScope(prog *core.Program, pkgPath, pos string) bool {
 		return true
 	case "pkg/bondmachine", "cmd/bondmachine":
 		return strings.Contains(pos, "/verilog") || strings.Contains(pos, "pkg/bondmachine/bondmachine.go") || strings.Contains(pos, "pkg/bondmachine/shr_")
+	}
+	return false
+}
+
+// vtaEdge reports whether the VTA call graph has the edge caller --site--> callee.
+func vtaEdge(prog *core.Program, caller *ssa.Function, site ssa.CallInstruction, callee *ssa.Function) bool {
+	n := prog.VTA().Nodes[caller]
+	if n == nil {
+		return true // not analysed by VTA: keep the CHA edge
+	}
+	for _, e := range n.Out {
+		if e.Site == site && e.Callee.Func == callee {
+			return true
+		}
 	}
 	return false
 }
